@@ -836,36 +836,6 @@ func (br *bodyRun) userAsserts(b *ssa.BasicBlock, idx int, ins ssa.Instruction, 
 			continue
 		}
 		env := br.envAt(b, idx, st, nil)
-		env.resolveRet = func(site string) (TV, bool) {
-			name, ord := site, 1
-			if j := strings.Index(site, "#"); j >= 0 {
-				fmt.Sscanf(site[j+1:], "%d", &ord)
-				name = site[:j]
-			}
-			k := 0
-			for _, bb := range br.fn.Blocks {
-				for _, in2 := range bb.Instrs {
-					if c2, ok := in2.(ssa.CallInstruction); ok && calleeName(c2) == name {
-						k++
-						if k == ord {
-							v := c2.Value()
-							if v == nil {
-								return TV{}, false
-							}
-							rv, ok := fc.vals[v]
-							if !ok {
-								// not executed before this point: an unconstrained value
-								return TV{fc.fresh(v.Type(), "noret"), v.Type()}, true
-							}
-							// meaningful on the paths through that call site: guard with called(..)
-							// when the site does not dominate this point
-							return TV{rv, v.Type()}, true
-						}
-					}
-				}
-			}
-			return TV{}, false
-		}
 		if ci, ok := ins.(ssa.CallInstruction); ok {
 			// the call's operands are visible as arg0, arg1, ... (receiver first)
 			c := ci.Common()
